@@ -1090,9 +1090,15 @@ class AuthTktCookieHelper:
             if (now - timestamp) > self.reissue_time:
                 # See https://github.com/Pylons/pyramid/issues#issue/108
                 tokens = list(filter(None, tokens))
-                headers = self.remember(
-                    request, userid, max_age=self.max_age, tokens=tokens
-                )
+                # this internal call must not count as the application
+                # re-remembering somebody (which revokes the reissue)
+                request._authtkt_reissuing = True
+                try:
+                    headers = self.remember(
+                        request, userid, max_age=self.max_age, tokens=tokens
+                    )
+                finally:
+                    del request._authtkt_reissuing
 
                 def reissue_authtkt(request, response):
                     if not hasattr(request, '_authtkt_reissue_revoked'):
@@ -1180,7 +1186,10 @@ class AuthTktCookieHelper:
             new_tokens.append(token)
         tokens = tuple(new_tokens)
 
-        if hasattr(request, '_authtkt_reissued'):
+        if not hasattr(request, '_authtkt_reissuing'):
+            # remembering a user cancels any reissue of the old ticket,
+            # whether it was scheduled already or is scheduled later on in
+            # this request
             request._authtkt_reissue_revoked = True
 
         ticket = self.AuthTicket(
